@@ -6,7 +6,7 @@ f="$(readlink -f "$1")"
 prop="$(python3 -c "import json,sys;print(json.load(open(sys.argv[1]))['property'])" "$f")" || exit 2
 bindir="${VERIF_BIN:-$VERIF_HOME/bin}"
 case "$prop" in
-  C15|C16) flavour=race; bin="$bindir/verif-race" ;;
+  C15|C16) flavour=race-yield; bin="$bindir/verif-race-yield" ;;
   *)       flavour=plain; bin="$bindir/verif" ;;
 esac
 "$VERIF_HOME/scripts/build.sh" "$flavour" || exit 2
